@@ -66,6 +66,7 @@ static const char *resname[] = { "none", "sid", "ticket", "psk13", "extpsk" };
 static const int tls_sizes[] = { 1, 100, 16383, 16384, 16385, 40000, 200000 };
 static const int dtls_sizes[] = { 1, 100, 1000, 1200 };
 #define PLAN_SPLIT 0x80
+#define PLAN_LONG 0x100     /* more than 256 records per direction under one key (record sequence numbers cross a byte boundary) */
 static const int chunks[] = { 0, 3, 17, 1399, 4096, 16389 };
 
 typedef struct {
@@ -618,6 +619,16 @@ static int data_phase(conn_t *k, int plan)
             STAT("split_write_bursts_ok", 1);
         }
     }
+    if (plan & PLAN_LONG) {
+        for (int t = 0; t < 2; t++) {
+            int m2o = (k->c->role == R_MXC) == (t == 0), NREC = 300, L = 24;
+            for (int i = 0; i < NREC; i++) {
+                mx_payload(p, L, conn, m2o ? k->M.role : !k->M.role, serial++);
+                if ((m2o ? data_m2o(k, p, L, L, "record of a 300-record stream") : data_o2m(k, p, L, L, "record of a 300-record stream")) < 0) { free(p); return -1; }
+            }
+            STAT("long_streams_ok", 1);
+        }
+    }
     free(p);
     return 0;
 }
@@ -847,6 +858,7 @@ static void add_cfg(cfg_t c)
     int i = ncf;
     if (MX_IS_DTLS(c.ver)) c.plan = vf_thorough ? (0xf | PLAN_SPLIT) : ((1 << (i % 4)) | (1 << ((i + 1) % 4)) | ((i % 3) ? 0 : PLAN_SPLIT));
     else c.plan = vf_thorough ? (0x7f | PLAN_SPLIT) : ((1 << (i % 7)) | (1 << ((i + 3) % 7)) | (1 << ((i + 5) % 7)) | ((i % 3) ? 0 : PLAN_SPLIT));
+    if (i % (vf_thorough ? 4 : 7) == 0) c.plan |= PLAN_LONG;
     c.chunk = force_chunk >= 0 ? force_chunk : chunks[(i / 2) % 6];
     if (ncf == capcf) { capcf = capcf ? capcf * 2 : 1024; CF = realloc(CF, capcf * sizeof *CF); }
     CF[ncf++] = c;
